@@ -735,7 +735,7 @@ func c05Sequence(c *Ctx) {
 			vname = valueP.Name()
 		}
 		var cases []seqCase
-		for n := 0; n <= 3; n++ {
+		for n := 0; n <= c.depth(3, 5); n++ {
 			e := elems("e", n)
 			switch m {
 			case "Add":
@@ -931,7 +931,7 @@ func c05Sequence(c *Ctx) {
 		case bad != "":
 			ob.Fail("%s", bad)
 		default:
-			ob.Ok("on all %d calls with receiver lengths 0..3 (two stale cells of spare capacity behind the visible ones) the visible content afterwards is exactly what the sequence model predicts", len(cases))
+			ob.Ok("on all %d calls with receiver lengths 0.."+itoa(c.depth(3, 5))+" (two stale cells of spare capacity behind the visible ones) the visible content afterwards is exactly what the sequence model predicts", len(cases))
 		}
 	}
 	c.R.Floor("C05.R5", total, 60)
